@@ -409,6 +409,41 @@ def rule_s7(ctx, F):
             ctx.gate("S7", fn, pts, gates, accept_desc="returning `%s`" % pat[:40])
 
 
+# functions that may look at a subtree's *structural* visibility; each of them combines it with the alias
+# the parent gives the node (a hidden rule aliased to a visible name is a visible node)
+VISIBILITY_READERS = {
+    "ts_tree_cursor_is_entry_visible": "falls back to the parent's alias sequence for hidden entries",
+    "ts_tree_cursor_child_iterator_next": "ors the alias into *visible",
+    "ts_tree_cursor_child_iterator_previous": "ors the alias into *visible",
+    "ts_tree_cursor_parent_node": "`alias_symbol != 0 || visible`",
+    "ts_node__is_relevant": "`visible || alias`, resp. alias named-ness first",
+    "iterator_tree_is_visible": "consults the alias sequence of the parent entry",
+    "iterator_get_visible_state": "`visible || *alias_symbol`",
+    "ts_subtree__write_to_string": "alias first (`alias_symbol ? alias_is_named : visible && named`)",
+    "ts_subtree_summarize_children": "counts an aliased child before looking at its own visibility",
+}
+VISIBILITY_FILES = ("lib/src/tree_cursor.c", "lib/src/node.c", "lib/src/get_changed_ranges.c", "lib/src/subtree.c")
+
+
+def rule_v1(ctx, F):
+    """V1 (who-may-call): in the navigation code a node's visibility is never decided from
+    ts_subtree_visible alone — only the tabled helpers, which also consult the alias, may call it."""
+    n = 0
+    for fn in F.fn_list:
+        if fn.file not in VISIBILITY_FILES:
+            continue
+        for pt, c in fn.calls():
+            if callee_name(c) == "ts_subtree_visible":
+                n += 1
+                if fn.name not in VISIBILITY_READERS:
+                    ctx.bad("V1", "%s:raw-visibility" % fn.name, "%s decides on ts_subtree_visible() at %s without the alias: a hidden rule aliased to a visible name is then treated as hidden "
+                            "(the cursor and the node API disagree on such nodes)" % (fn.name, fn.loc(pt)), {"site": fn.loc(pt)})
+    ctx.floor("structural-visibility reads in the navigation code", n, 8)
+    for name, why in sorted(VISIBILITY_READERS.items()):
+        if name in F.fns:
+            ctx.ok("V1", "%s:alias-aware" % name, "tabled reader: " + why, nontrivial=False)
+
+
 def rule_s4(ctx, F):
     table = [
         ("ts_node__field_name_from_language", "field_map", "structural_child_index", lambda e: e.get("k") == "ret" and strip(e["e"]).get("k") != "null" and not (strip(e["e"]).get("k") == "int")),
@@ -439,6 +474,7 @@ def run(ctx):
         rule_s5(ctx, F)
         rule_s6(ctx, F)
         rule_s7(ctx, F)
+        rule_v1(ctx, F)
     return ctx.finish(
         "Sibling-agreement (CFG isomorphism under substitution), field-coverage and index-width rules over node.c / tree_cursor.c: byte- and point-range "
         "descendant search are the same algorithm; child/named-child APIs share one implementation; child iterators read aliases and advance the structural "
